@@ -834,7 +834,7 @@ where
 	K: Keychain + 'a,
 {
 	let height = block_fees.height;
-	let lock_height = height + global::coinbase_maturity();
+	let lock_height = height.saturating_add(global::coinbase_maturity());
 	let key_id = block_fees.key_id();
 	let parent_key_id = wallet.parent_key_id();
 
